@@ -75,6 +75,7 @@ def run_property(prop, cfg, tier, seed, jobs, work, rebaseline=False, only=None)
     checker_cmds = []
     n_clauses = 0
     bounded = []
+    stability = []
     extra_cov = {}
 
     # ---------------- Verus bundles ----------------
@@ -161,6 +162,19 @@ def run_property(prop, cfg, tier, seed, jobs, work, rebaseline=False, only=None)
                 if not good:
                     undecided.append('canary: %s verifies `ensures false` (%s): vacuous precondition or assumption leak' % (c, st))
             log('-- canaries %s: %d/%d failed as expected' % (key, sum(1 for c in canary_report if c['failed_as_expected']), len(canary_report)))
+        # stability (thorough): the heavy units again with two other solver seeds at twice the rlimit; a differing outcome is
+        # recorded as instability (never as a violation)
+        if tier == 'thorough' and not only and not failures and not undecided:
+            heavy = [u for u in units if u in b.get('rlimits', {})]
+            jobs_ = [(u, sd) for u in heavy for sd in (seed + 101, seed + 202)]
+            def one_stab(js):
+                u, sd = js
+                return u, sd, V.run_unit(br.path, work, u, b['rlimits'][u] * 2, seed=sd)
+            from concurrent.futures import ThreadPoolExecutor as _TPE2
+            with _TPE2(max_workers=jobs) as ex:
+                for u, sd, r_ in ex.map(one_stab, jobs_):
+                    stability.append({'bundle': key, 'unit': u, 'seed': sd, 'status': r_['status'], 'wall_s': r_['wall_s']})
+            log('-- stability %s: %d extra runs, %d not ok' % (key, len(jobs_), sum(1 for s_ in stability if s_['status'] != 'ok')))
         # lemma canaries (thorough): `false` added to the ensures of each proof lemma that has a precondition must fail
         if tier == 'thorough' and not only and not failures and not undecided:
             lem = [u for u in units if u in D.proof_fns_with_requires(br.text)]
@@ -182,11 +196,11 @@ def run_property(prop, cfg, tier, seed, jobs, work, rebaseline=False, only=None)
                         undecided.append('canary: lemma %s proves `false` (%s): contradictory precondition' % (name, r_['status']))
             log('-- lemma canaries %s: %d checked' % (key, len(lem)))
         # samples of actual obligations
-        for cl in br.g.clauses.items:
-            if cl['kind'] in ('ensures',) and len(samples) < 6 and (not cl['tags'] or prop in cl['tags']):
-                st = res.get(cl['fn'], {}).get('status')
-                if st:
-                    samples.append('%s: ensures %s -- %s' % (cl['fn'], cl['text'][:140], 'discharged' if st == 'ok' else st))
+        cand = [cl for cl in br.g.clauses.items if cl['kind'] in ('ensures', 'invariant') and res.get(cl['fn'], {}).get('status')]
+        cand.sort(key=lambda cl: (0 if prop in cl['tags'] else 1, 0 if cl['kind'] == 'ensures' else 1, -len(cl['text'])))
+        for cl in cand[:8]:
+            st = res[cl['fn']]['status']
+            samples.append('%s: %s %s%s -- %s (%.1fs)' % (cl['fn'], cl['kind'], ('[' + ','.join(cl['tags']) + '] ') if cl['tags'] else '', cl['text'][:220], 'discharged' if st == 'ok' else st, res[cl['fn']]['wall_s']))
 
     # ---------------- other engines (kani, native exhaustive checks) ----------------
     for eng in cfg.get('engines', []):
@@ -271,6 +285,7 @@ def run_property(prop, cfg, tier, seed, jobs, work, rebaseline=False, only=None)
             'canaries': canary_report,
             'canaries_failed_as_expected': sum(1 for c in canary_report if c['failed_as_expected']),
             'bounded': bounded,
+            'stability_runs': stability,
             'not_decided': cfg.get('not_decided', []),
             'samples': samples[:12] or ['(no sample)'],
             'failed_obligations': [f['obligation'] for f in failures],
